@@ -81,18 +81,6 @@ impl LogicalLineFileFormatter for OptimisingLineFormatter {
         }
 
         /*
-            After each line's solution has been finalised, the extra spaces
-            provided by `TokenSpacing` can be removed at the starts of lines.
-        */
-        for token_index in 0..olf.formatted_tokens.len() {
-            if let Some(data) = olf.formatted_tokens.get_formatting_data_mut(token_index) {
-                if data.newlines_before > 0 {
-                    data.spaces_before = 0;
-                }
-            }
-        }
-
-        /*
             Indenting of multi-line strings is tricky because it requires knowing
             the intended indentation for the token beforehand, but it also could
             affect the decisions about where and when to wrap lines.
@@ -110,6 +98,7 @@ impl LogicalLineFileFormatter for OptimisingLineFormatter {
             not cause any multi-line strings to change in indentation.
         */
         if !self.olf_settings.format_multiline_strings {
+            Self::remove_spaces_at_line_starts(olf.formatted_tokens);
             return;
         }
 
@@ -138,9 +127,24 @@ impl LogicalLineFileFormatter for OptimisingLineFormatter {
                 olf.reconstruct_solution(&solution, line.1);
             }
         }
+
+        Self::remove_spaces_at_line_starts(olf.formatted_tokens);
     }
 }
 impl OptimisingLineFormatter {
+    /// After each line's solution has been finalised (including the lines that
+    /// are wrapped a second time), the extra spaces provided by `TokenSpacing`
+    /// can be removed at the starts of lines.
+    fn remove_spaces_at_line_starts(formatted_tokens: &mut FormattedTokens<'_>) {
+        for token_index in 0..formatted_tokens.len() {
+            if let Some(data) = formatted_tokens.get_formatting_data_mut(token_index) {
+                if data.newlines_before > 0 {
+                    data.spaces_before = 0;
+                }
+            }
+        }
+    }
+
     pub fn new(
         olf_settings: OptimisingLineFormatterSettings,
         recon_settings: ReconstructionSettings,
